@@ -166,7 +166,9 @@ Definition linearizable (c : cfg) (U : list tx) (rs : rstate) (height : N) (ops 
 (* F4 and F5 are repaired in /repo (commits 09a5b3f, aaf50e5): only the repaired mechanism is recognised.
    (While they were open the three legacy variants of [cfg] were accepted here as well, so that the harmless
    manifestation of F5 - a wrong refusal after a uint256 underflow - was not reported as model drift.) *)
-Definition all_cfgs : list cfg := [fixed_cfg].
+(* F57 (RemoveStale stores the fee per byte whether it rose or fell) is a second accepted behaviour of the repaired
+   code: a case agrees with the model when ONE of the two explains the whole case - every step of it. *)
+Definition all_cfgs : list cfg := [fixed_cfg; repaired true].
 
 (* ---------- the specification on the observations ---------- *)
 Definition by_id (U : list tx) (h : N) : tx := utx U (N.to_nat h).   (* universe ids are the indices *)
@@ -293,8 +295,7 @@ Definition check_case (c : case) : N :=
       if wf_universe 0 U && (length U <? 1000)%nat && (length ops <=? 4)%nat then
         let st0 := mkR (mkState (new_pool capacity) (bal_of bal0)) [] 0 in
         let pre_s := spec_steps U capacity (bal_of bal0) [] [] 0 [] 0 steps in
-        let pre_m := replay fixed_cfg U st0 0 steps in
-        let '(rs1, h1) := replay_state fixed_cfg U st0 0 steps in
+        let pre_m := fun c => replay c U st0 0 steps in
         (* the balances in force before / after the concurrent RemoveStale (if there is one) *)
         let bal_pre := fold_left (fun b st => match st with (HStale _ b' _ _, _, _, _) => bal_of b' | _ => b end) steps (bal_of bal0) in
         let bal_post := fold_left (fun b o => match o with (HStale _ b' _ _, _) => bal_of b' | _ => b end) ops bal_pre in
@@ -304,7 +305,8 @@ Definition check_case (c : case) : N :=
                  && forallb (fun o : hobs => let '(f, i, k) := o in obs_inv U capacity (if f then bal_post else bal_pre) i k) obs
                  && obs_inv U capacity (if has_stale then bal_post else bal_pre) ids keys
                  && forallb (fun o => match o with (_, HPanic) => false | _ => true end) ops in
-        let m := pre_m && linearizable fixed_cfg U rs1 h1 ops obs ids keys in
+        let m := existsb (fun c => pre_m c && let '(rs1, h1) := replay_state c U st0 0 steps in
+                                               linearizable c U rs1 h1 ops obs ids keys) all_cfgs in
         code_of (m && s) s
       else 3
   end.
